@@ -56,6 +56,7 @@ class _Ctx:
         self.update_cap = None
         self.cand_calls = 0
         self.added = set()
+        self.grown_from = {}
         self.ignored_mols = set()
         self.touched = set()
         self.cand_cap = None
@@ -515,6 +516,7 @@ def _oracle_add(ctx, xyz, m, node, start):
             ctx.fail("C17", "grow.prev", f"residue ({m},{node}) added outside its growth step")
             return
         prev = ctx.in_step[1]
+        ctx.grown_from[(m, node)] = prev
         ppos = model.pos.get((m, prev))
         if ppos is not None:
             tcur = model.node_type[(m, node)]
@@ -687,6 +689,10 @@ def write_inputs(job, workdir):
     for fn, txt in files.items():
         with open(os.path.join(workdir, fn), "w") as fh:
             fh.write(txt)
+    if job.get("build_spec") is not None or job.get("bld_templates") or job.get("bld_volumes"):
+        from gen import bldgen
+        job = dict(job)
+        job["build_file"] = bldgen.render(job.get("build_spec"), job.get("bld_templates"), job.get("bld_volumes"))
     if job.get("build_file"):
         with open(os.path.join(workdir, "opts.bld"), "w") as fh:
             fh.write(job["build_file"])
@@ -713,7 +719,7 @@ def gen_coords_kwargs(job, workdir):
     for k in ("build_res", "ignore", "cycles", "split", "ligands", "start"):
         if o.get(k):
             kw[k] = list(o[k])
-    if job.get("build_file"):
+    if job.get("build_file") or job.get("build_spec") is not None or job.get("bld_templates") or job.get("bld_volumes"):
         kw["build"] = [Path(workdir) / "opts.bld"]
     if job.get("grid_points") is not None:
         kw["grid"] = str(Path(workdir) / "grid.dat")
